@@ -146,24 +146,25 @@ invariant `finalize_unpruned_ok_or_error` establishes, but the link plan → `BM
 is driver glue, not a theorem; which branches are removed is taken from the real run. -/
 
 /-- pruned types are below the original ones (fewer constraints ⇒ smaller least solution) -/
-theorem pruned_types_smaller (jt : JetTypes) (p : Plan) (program : Bool) (c : Cut) (ar ar' : Arrows)
-    (h : infer jt p program = .ok ar) (h' : inferCut jt p program c = .ok ar') :
+theorem pruned_types_smaller (jt : JetTypes) (leak : Bool) (p : Plan) (program : Bool) (c : Cut)
+    (ar ar' : Arrows)
+    (h : infer jt p program = .ok ar) (h' : inferCut jt leak p program c = .ok ar') :
     ∀ i, Le (tgtOf ar' i) (tgtOf ar i) :=
   inferCut_le h h'
 
 /-- **Ok or error, after pruning**: the pruned program carries one value per remaining witness
 node, each of the node's *re-inferred* target type. -/
-theorem finalize_pruned_ok_or_error_partial (jt : JetTypes) (p : Plan) (program : Bool)
+theorem finalize_pruned_ok_or_error_partial (jt : JetTypes) (leak : Bool) (p : Plan) (program : Bool)
     (cand : Nat → Option Val) (c : Cut) (ar' : Arrows) (r' : Witnesses)
-    (h : routeP jt p program cand c = .ok ar' r') :
-    inferCut jt p program c = .ok ar' ∧ Covers ((witnessIdx p).filter c.keep) r' ∧ WitnessTyped ar' r' := by
+    (h : routeP jt leak p program cand c = .ok ar' r') :
+    inferCut jt leak p program c = .ok ar' ∧ Covers ((witnessIdx p).filter c.keep) r' ∧ WitnessTyped ar' r' := by
   unfold routeP at h
   cases hu : routeU jt p program cand with
   | ok ar r =>
     rw [hu] at h
     simp only at h
     have hcov := ((finalize_unpruned_ok_or_error jt p program cand).2 ar r hu).2.1
-    cases hi : inferCut jt p program c with
+    cases hi : inferCut jt leak p program c with
     | ok ar0 =>
       rw [hi] at h
       simp only at h
@@ -188,14 +189,14 @@ theorem finalize_pruned_ok_or_error_partial (jt : JetTypes) (p : Plan) (program 
 ("pruned types should check out if unpruned types check out") and every remaining value can be
 pruned to its new type ("pruned type should be shrunken version of unpruned type"), whatever the
 candidates were and whatever is cut. -/
-theorem finalize_pruned_never_panics_partial (jt : JetTypes) (p : Plan) (program : Bool)
-    (cand : Nat → Option Val) (c : Cut) : routeP jt p program cand c ≠ .panic := by
+theorem finalize_pruned_never_panics_partial (jt : JetTypes) (leak : Bool) (p : Plan) (program : Bool)
+    (cand : Nat → Option Val) (c : Cut) : routeP jt leak p program cand c ≠ .panic := by
   unfold routeP
   cases hu : routeU jt p program cand with
   | ok ar r =>
     simp only
     obtain ⟨hi, _, ht⟩ := (finalize_unpruned_ok_or_error jt p program cand).2 ar r hu
-    rcases inferCut_accepts c hi with ⟨ar', h'⟩ | h'
+    rcases inferCut_accepts leak c hi with ⟨ar', h'⟩ | h'
     · rw [h']
       simp only
       obtain ⟨r', hr'⟩ := pruneValues_total (keep := c.keep) (inferCut_le hi h') ht
@@ -209,13 +210,13 @@ theorem finalize_pruned_never_panics_partial (jt : JetTypes) (p : Plan) (program
 
 /-- **Which value after pruning**: the candidate pruned *directly* to the re-inferred type (two
 prunes = one), or the zero value of the re-inferred type. -/
-theorem finalize_pruned_values_partial (jt : JetTypes) (p : Plan) (program : Bool)
+theorem finalize_pruned_values_partial (jt : JetTypes) (leak : Bool) (p : Plan) (program : Bool)
     (cand : Nat → Option Val) (c : Cut) (ar' : Arrows) (r' : Witnesses)
-    (h : routeP jt p program cand c = .ok ar' r') :
+    (h : routeP jt leak p program cand c = .ok ar' r') :
     ∀ x ∈ r', match cand x.1 with
       | some v => prune v (tgtOf ar' x.1) = some x.2
       | none => x.2 = zero (tgtOf ar' x.1) := by
-  have hi' := (finalize_pruned_ok_or_error_partial jt p program cand c ar' r' h).1
+  have hi' := (finalize_pruned_ok_or_error_partial jt leak p program cand c ar' r' h).1
   unfold routeP at h
   cases hu : routeU jt p program cand with
   | ok ar r =>
@@ -249,6 +250,70 @@ theorem finalize_pruned_values_partial (jt : JetTypes) (p : Plan) (program : Boo
   | fuel => rw [hu] at h; cases h
   | panic => rw [hu] at h; cases h
 
+/-! ### the pruned program's own serialisation
+
+Full statement: *the serialisation of the program `finalize_pruned` returns decodes, to the same
+values* — `RedeemNode::decode` infers the **principal** types of the pruned program and reads the
+witness stream with them.  `ownSerialisationDecodes` says exactly that in the model (principal
+types = `inferCut` without the constraints of removed nodes).
+
+* With principal re-inference (`leak = false`) it holds for every plan, candidates and cut.
+* For the code as it is (`leak = true`: `prune_with_tracker` builds the branches it is about to
+  hide in the same inference context as the rest) it is **false**: when a witness node is used both
+  in a removed branch and in the remaining program, the removed branch's constraints keep the
+  node's type larger than the pruned program's principal type; the value is pruned to that larger
+  type and the stream is longer than the decoder reads.  Counterexample below, replayed on the
+  real code (harness class `pruned-witness-type-not-principal`). -/
+
+theorem finalize_pruned_serialisation_decodes_if_principal (jt : JetTypes) (p : Plan) (program : Bool)
+    (cand : Nat → Option Val) (c : Cut) :
+    ownSerialisationDecodes jt p program c (routeP jt false p program cand c) = true := by
+  cases h : routeP jt false p program cand c with
+  | ok ar' r' =>
+    obtain ⟨hi, hc, ht⟩ := finalize_pruned_ok_or_error_partial jt false p program cand c ar' r' h
+    unfold ownSerialisationDecodes serialise padToByte
+    rw [hi]
+    simp only
+    rw [readAll_encW _ hc ht]
+    simp only
+    rw [closeOk_padding _ (by omega)]
+    simp
+  | err => rfl
+  | illTyped => rfl
+  | fuel => rfl
+  | panic => rfl
+
+/-- `comp (pair L(ε) unit) (case (take (comp w unit)) (drop (comp (comp w pin₂) unit)))`: the witness
+node `w` (index 0) is used in the executed left branch, where nothing constrains its type, and in
+the right branch, which pins it to `2`. -/
+def sharedPlan : Plan := #[.witness, .unit, .comp 0 1, .take 2, .unit, .take 4, .injl 5, .unit, .take 7,
+  .injr 8, .case 6 9, .iden, .unit, .pair 11 12, .comp 13 10, .comp 0 14, .unit, .comp 15 16, .drop 17,
+  .case 3 18, .unit, .injl 20, .unit, .pair 21 22, .comp 23 19]
+/-- the right branch of the case node 19 is removed -/
+def sharedCut : Cut := cutOf sharedPlan fun i => if i = 19 then some false else none
+def sharedCand : Nat → Option Val := fun i => if i = 0 then some (.inr .unit) else none
+
+def carries (o : Outcome) (ws : Witnesses) : Bool :=
+  match o with
+  | .ok _ r => r == ws
+  | _ => false
+
+def tgtIs (o : Outcome) (i : Nat) (t : Ty) : Bool :=
+  match o with
+  | .ok ar _ => tgtOf ar i == t
+  | _ => false
+
+/-- **The code as it is violates the clause**: the pruned program keeps `w : 1 → 2` with the value
+`1`, its principal type is `1 → 1`, and its witness stream `1000 0000` is rejected by the decoder
+(non-zero trailing bits). -/
+theorem finalize_pruned_serialisation_counterexample :
+    tgtIs (routeP (fun _ => none) true sharedPlan true sharedCand sharedCut) 0 (.sum .one .one) = true ∧
+    carries (routeP (fun _ => none) true sharedPlan true sharedCand sharedCut) [(0, .inr .unit)] = true ∧
+    tgtIs (routeP (fun _ => none) false sharedPlan true sharedCand sharedCut) 0 .one = true ∧
+    ownSerialisationDecodes (fun _ => none) sharedPlan true sharedCut
+      (routeP (fun _ => none) true sharedPlan true sharedCand sharedCut) = false := by
+  decide +kernel
+
 /-! ### execution
 
 Full statement: *executing a redemption program obtained by any route writes, at every witness
@@ -270,16 +335,6 @@ theorem witness_write_width_partial (ar : Arrows) (r : Witnesses) (h : WitnessTy
 
 def exPlan : Plan := #[.witness, .unit, .pair 0 1, .take 1, .case 3 3, .take 4, .case 3 5, .comp 2 6]
 def noJets : JetTypes := fun _ => none
-
-def carries (o : Outcome) (ws : Witnesses) : Bool :=
-  match o with
-  | .ok _ r => r == ws
-  | _ => false
-
-def tgtIs (o : Outcome) (i : Nat) (t : Ty) : Bool :=
-  match o with
-  | .ok ar _ => tgtOf ar i == t
-  | _ => false
 
 -- the inferred target type of the witness node
 example : tgtIs (routeU noJets exPlan true fun _ => none) 0
@@ -313,9 +368,9 @@ example : decodeRoute noJets exPlan [true, false, true, false, false, false, fal
 -- pruning the right branch of the outer case (node 6 becomes `assertl`; nodes 4, 5 go): the
 -- witness type shrinks to `1 + 1` and the value `R((1, ε))` to `R(ε)`
 def exCut : Cut := cutOf exPlan fun i => if i = 6 then some false else none
-example : tgtIs (routeP noJets exPlan true (fun _ => some (.inr (.pair (.inr .unit) .unit))) exCut) 0
+example : tgtIs (routeP noJets codeLeaks exPlan true (fun _ => some (.inr (.pair (.inr .unit) .unit))) exCut) 0
     (.sum .one .one) = true := by decide +kernel
-example : carries (routeP noJets exPlan true (fun _ => some (.inr (.pair (.inr .unit) .unit))) exCut)
+example : carries (routeP noJets codeLeaks exPlan true (fun _ => some (.inr (.pair (.inr .unit) .unit))) exCut)
     [(0, .inr .unit)] = true := by decide +kernel
 
 end Props.C12
